@@ -34,7 +34,9 @@ var (
 	known     map[string]bool
 )
 
-var identRe = regexp.MustCompile(`[A-Za-z_][A-Za-z0-9_]*`)
+// an identifier counts when it is written the way specs, anchors and canonical patterns write names - directly after
+// one of . : " | ( ) - not when it is merely a word of the prose in a reason string ("this constructor strips ...")
+var identRe = regexp.MustCompile("[.:\"|()`]([A-Za-z_][A-Za-z0-9_]*)")
 
 func KnownName(name string) bool {
 	knownOnce.Do(func() {
@@ -45,8 +47,8 @@ func KnownName(name string) bool {
 			if err != nil {
 				continue
 			}
-			for _, id := range identRe.FindAll(data, -1) {
-				known[string(id)] = true
+			for _, m := range identRe.FindAllSubmatch(data, -1) {
+				known[string(m[1])] = true
 			}
 		}
 	})
